@@ -603,6 +603,9 @@ func (p *InlineParser) parse(source []byte, container *Block) []*Inline {
 					End:   state.spanEnd(),
 				},
 			})
+			// Each unparsed span is one line of a paragraph:
+			// "spaces at the [...] beginning of the next line are removed".
+			state.ignoreNextIndent = true
 		default:
 			state.ignoreNextIndent = false
 			dummy.children = append(dummy.children, state.unparsed[state.unparsedPos])
